@@ -58,6 +58,8 @@ fn rejected_menu(cfg: &Cfg, w: &World) -> Vec<(&'static str, Event)> {
             v.push(("bad-fingerprint", Event::Deliver { to: t.clone(), reply: first_ok.with_fp(RFp::Bad) }));
             v.push(("missing-fingerprint", Event::Deliver { to: t.clone(), reply: first_ok.with_fp(RFp::Absent) }));
             v.push(("misplaced-fingerprint", Event::Deliver { to: t.clone(), reply: first_ok.with_fp(RFp::MisplacedWrongLen) }));
+            v.push(("wrong-fingerprint-then-decoy", Event::Deliver { to: t.clone(), reply: first_ok.with_fp(RFp::BadThenDecoy) }));
+            v.push(("wrong-fingerprint-then-second-fingerprint", Event::Deliver { to: t.clone(), reply: first_ok.with_fp(RFp::BadThenSecondFp) }));
         }
         match cfg.mech {
             Mech::ShortTerm(alg) => {
@@ -368,7 +370,7 @@ pub fn run(ctx: &RunCtx) -> i32 {
         rep,
         Finish {
             level: "model_checking",
-            rule: format!("breadth-first exploration of the real client to depth {} for 8 transport x mechanism x fingerprint configurations (limit 3) over {{Send, Timer, AdvanceTo, Deliver(accepted reply kinds of the mechanism incl. 401 / 438 challenges), every rejected-buffer kind: undecodable (garbage, truncated), request class, reply for an unknown id, reply for a finished id, bad / missing / misplaced FINGERPRINT, auth-failing response on unreliable transport (corrupted, absent, other password), both-MACs response, wrong-algorithm response, 401 without realm / nonce, 438 without nonce, an error response without ERROR-CODE (5 integrity variants), a long-term success response with both MACs, complete 401 / 438 challenges (new realm / nonce / algorithms) whose own integrity attribute fails, indication failing authentication / without integrity}}. A buffer of a kind the statement lists as rejected (undecodable bytes, a request, a response for an unknown or finished id, a bad / missing fingerprint) that is accepted is a violation in itself. Direct oracle on every transition whose call returned Err: no events and a byte-identical canonical snapshot before/after, the only tolerated change being one added violated marker for a response on unreliable transport with credentials. Differential oracle at every visited state: a fixed continuation (all outstanding requests driven to their final outcome by the pending deadlines, one more exchange, RTO of the new request, final snapshot) is run with and without each rejected kind inserted and must produce identical observations (only TimedOut -> ProtectionViolated for the affected request may differ)", depth),
+            rule: format!("breadth-first exploration of the real client to depth {} for 8 transport x mechanism x fingerprint configurations (limit 3) over {{Send, Timer, AdvanceTo, Deliver(accepted reply kinds of the mechanism incl. 401 / 438 challenges), every rejected-buffer kind: undecodable (garbage, truncated), request class, reply for an unknown id, reply for a finished id, bad / missing / misplaced FINGERPRINT, a wrong FINGERPRINT followed by a decoy attribute or by a second FINGERPRINT, auth-failing response on unreliable transport (corrupted, absent, other password), both-MACs response, wrong-algorithm response, 401 without realm / nonce, 438 without nonce, an error response without ERROR-CODE (5 integrity variants), a long-term success response with both MACs, complete 401 / 438 challenges (new realm / nonce / algorithms) whose own integrity attribute fails, indication failing authentication / without integrity}}. A buffer of a kind the statement lists as rejected (undecodable bytes, a request, a response for an unknown or finished id, a bad / missing fingerprint) that is accepted is a violation in itself. Direct oracle on every transition whose call returned Err: no events and a byte-identical canonical snapshot before/after, the only tolerated change being one added violated marker for a response on unreliable transport with credentials. Differential oracle at every visited state: a fixed continuation (all outstanding requests driven to their final outcome by the pending deadlines, one more exchange, RTO of the new request, final snapshot) is run with and without each rejected kind inserted and must produce identical observations (only TimedOut -> ProtectionViolated for the affected request may differ)", depth),
             assumptions: vec!["the feature-gated snapshot renders every field of StunClient except the stateless encoder / decoder".into()],
             required_symbols: vec!["bfs-configs", "rejected-and-unchanged", "marker-exception", "continuation-identical", "undecodable-garbage", "request-class", "reply-for-unknown-id", "reply-for-finished-id", "bad-fingerprint", "missing-fingerprint", "both-macs-response", "wrong-algorithm-response", "401-without-realm", "438-without-nonce", "401-failing-auth-unreliable", "438-failing-auth-unreliable", "error-response-without-error-code", "indication-failing-auth"],
             min_outcomes: 8,
